@@ -4,7 +4,8 @@ From MT Require Import Prelude Lang Eval Graph GraphOps Gen.
 Definition obs_gen_node (n : node) : jv :=
   JList [ jopt JInt (n_id n); JStr (n_type n); JStr (n_name n); jopt JStr (n_asset n);
           jopt JInt (n_def n); jopt JBool (n_exist n); jopt JStr (n_mitre n); n_ttc n; jstrs (n_tags n);
-          jnats (as_set (n_children n)); jnats (as_set (n_parents n)); JBool (n_viable n); JBool (n_necessary n) ].
+          jnats (sort_nats (n_children n)); jnats (sort_nats (n_parents n));   (* with multiplicity: one entry per edge *)
+          JBool (n_viable n); JBool (n_necessary n) ].
 Definition gerr_code (e : gerr) : Z :=
   match e with GFuel => 1 | GLookup => 2 | GNonUniform => 3 | GNoTarget => 4 | GBadSpec => 5 end.
 Definition obs_generate (L : lang) (M : imodel) : jv :=
